@@ -476,12 +476,39 @@ fn redo_split_case(seed: u64, index: u64, rep: &mut Report) {
     }
 }
 
+/// Fixed input found by the block-level transcription of the quotation bookkeeping (Crdt/LinkBlocks.v: lkb_split_preserves is
+/// necessary, one split site had been left out): a quoted block split by a snapshot diff keeps its registration.
+fn fixed_c20_inputs(rep: &mut Report) {
+    use std::sync::atomic::AtomicUsize;
+    use yrs::types::text::YChange;
+    rep.count("c20_fixed_inputs");
+    let run = |with_diff: bool| -> (usize, String) {
+        let doc = mk_doc(1, DocCfg::default());
+        let text = doc.get_or_insert_text("text"); let map = doc.get_or_insert_map("map");
+        text.insert(&mut doc.transact_mut(), 0, "hello");
+        let prev = doc.transact_mut().snapshot();
+        text.insert(&mut doc.transact_mut(), 5, " world");
+        let next = doc.transact_mut().snapshot();
+        let link = { let mut txn = doc.transact_mut(); let q = text.quote(&txn, 0..=10).unwrap(); map.insert(&mut txn, "q", q) };
+        if with_diff { let _ = text.diff_range(&mut doc.transact_mut(), Some(&next), Some(&prev), YChange::identity); }
+        let calls = Arc::new(AtomicUsize::new(0)); let c = calls.clone();
+        let _sub = link.observe(move |_, _| { c.fetch_add(1, Ordering::SeqCst); });
+        text.remove_range(&mut doc.transact_mut(), 7, 1);
+        let shown = link.get_string(&doc.transact());
+        (calls.load(Ordering::SeqCst), shown)
+    };
+    let (control, s0) = run(false); let (after_diff, s1) = run(true);
+    if s0 != "hello wrld" || s1 != "hello wrld" { rep.fail(json!({"property": "C20", "class": "text-quotation-shows-wrong-content", "input": "fixed: snapshot diff over a quoted text", "control": s0, "after_diff_range": s1, "case": {"stream": 215, "index": 0}})); }
+    if control != 1 || after_diff != 1 { rep.fail(json!({"property": "C20", "class": "quotation-observer-not-notified-of-a-removal-inside-the-range", "input": "fixed: a quoted block split by text.diff_range (split_by_snapshot), then a quoted character removed", "observer_calls_without_the_diff": control, "observer_calls_after_the_diff": after_diff, "case": {"stream": 215, "index": 0}})); }
+}
+
 pub fn run(prop: &str, tier: &str, seed: u64, workers: usize) -> Report {
     let n = if tier == "thorough" { 40000 } else { 8000 };
     let want: Vec<&str> = vec![prop];
     let mut total = parallel(workers, |w, nw| {
         let mut rep = Report::default();
         let mut md = Model::spawn();
+        if prop == "C20" && w == 0 { if let Err(e) = catch(std::panic::AssertUnwindSafe(|| fixed_c20_inputs(&mut rep))) { rep.fail(json!({"property": prop, "class": "panic", "error": e, "case": {"stream": 215, "index": 0}})); } }
         if prop == "C14" { for ci in 0..n / 4 { if ci as usize % nw != w { continue; }
             match catch(std::panic::AssertUnwindSafe(|| { let mut r2 = Report::default(); redo_split_case(seed, ci, &mut r2); r2 })) {
                 Ok(r2) => rep.merge(r2),
